@@ -105,6 +105,12 @@ def dkeys_fn(ty):
                        sort(ty), z3.SeqSort(sort(ty.key)))
 
 
+def dkpos_fn(ty):
+    """position of a key in the insertion-ordered key sequence of a dict (meaningful for keys that are present)"""
+    return z3.Function("dkpos_" + repr(ty).replace("[", "_").replace("]", "").replace(",", "_"),
+                       sort(ty), sort(ty.key), z3.IntSort())
+
+
 def empty_dict(E, ty):
     s = sort(TOpt(ty.val))
     d = SV(z3.K(sort(ty.key), s.none), ty)
